@@ -219,8 +219,16 @@ class Prop:
         if v.clause not in self.cross_clauses():
             scheds = [scheds[si]]
         rc['scheds'] = scheds
+        from .materialize import render_source
+        try:
+            src = render_source(case['spec'])
+        except Exception:  # noqa: BLE001 - rendering is a convenience only
+            src = None
+        tail = [list(ev[:5]) + [repr(ev[5])[:160]] for ev in (rec.trace or [])[-60:]]
         return {'property': self.id, 'clause': v.clause, 'detail': v.detail, 'case': rc,
-                'log_digest': rec.digest, 'status': rec.status, 'outcomes': rec.outcomes}
+                'log_digest': rec.digest, 'status': rec.status, 'outcomes': rec.outcomes,
+                'rendered_source': src, 'trace_tail': tail,
+                'trace_format': '(seq, virtual time, kind, run, node, payload)'}
 
     def cross_clauses(self):
         return ()
